@@ -213,6 +213,24 @@ def main():
                     except Exception as ex:  # noqa: BLE001
                         t["exc"] = type(ex).__name__
                     traces.append(t)
+                    if _ % 2 == 1 and cls != "ANY":
+                        # the underlying game is CHANGED in place (one explorable value raised; a superadditive game stays one when the
+                        # grand coalition is raised) and the same meta-coalition is asked again: the meta-game follows its game
+                        # (seed C11-f: get_value memoised on the MetaGame object)
+                        v3 = list(v)
+                        v3[-1] = v3[-1] + (2.0 if tiny == 1.0 else 2.0 * tiny)
+                        fg.set_value(v3[-1], Coalition(2 ** n - 1))
+                        tid += 1
+                        t = base(tid, n, "meta", comp, r, gap, minimal, scale)
+                        t.update({"hid": D.exact_arr(v3, scale), "chosen": chosen})
+                        try:
+                            t["val"] = gap_iv(mg.get_value(Coalition(meta_id)), n, gap, scale, max(M, abs(v3[-1])))
+                        except D.DriverError:
+                            raise
+                        except Exception as ex:  # noqa: BLE001
+                            t["exc"] = type(ex).__name__
+                        traces.append(t)
+                        fg.set_value(v[-1], Coalition(2 ** n - 1))        # and back
             else:
                 reps = rng.randint(1, 3)
                 shape = rng.random()
